@@ -92,6 +92,10 @@ type scenario struct {
 	// it could be accepted ("before": that happens, and the accept loop is backing off, when Close() is called;
 	// "racing": it happens while Close() is being called).
 	TempErr string `json:",omitempty"`
+	// Hold: the parked exchanges are released only 6 minutes (of virtual time) after Close() was called - longer
+	// than the proxy's timeout. Whatever becomes of those exchanges (their connection deadlines have passed), Close()
+	// must not have returned while their handlers were still running. Only that clause is judged.
+	Hold bool `json:",omitempty"`
 	// Fam names the family of the scenario in the evidence (no influence on the run).
 	Fam string `json:",omitempty"`
 }
@@ -114,6 +118,9 @@ func (s scenario) String() string {
 	if s.TempErr != "" {
 		out += " temperr=" + s.TempErr
 	}
+	if s.Hold {
+		out += " hold=true"
+	}
 	return out
 }
 
@@ -122,6 +129,9 @@ func (s scenario) String() string {
 // handleConnectRequest. The other flavours take the same path through the proxy as the plain matrix and share its
 // scenario-wide signatures; per-connection signatures always name the flavour (<symptom>:<stage>@<flavour>).
 func (s scenario) class() string {
+	if s.Hold {
+		return "held_past_timeout"
+	}
 	if s.Listeners > 1 {
 		return "two_listeners"
 	}
@@ -566,6 +576,10 @@ func run(sc scenario) (body func(), check func(r *vrt.Result) []finding) {
 			}
 		}
 		vrt.WaitQuiescent()
+		if sc.Hold {
+			vrt.Sleep(6 * time.Minute)
+			vrt.WaitQuiescent()
+		}
 		for _, idx := range sc.Order {
 			name := fmt.Sprint(idx)
 			for _, k := range []string{"reqmod:", "rt:", "resmod:", "client:"} {
@@ -705,6 +719,9 @@ func run(sc scenario) (body func(), check func(r *vrt.Result) []finding) {
 			if e.Kind == "reqmod-start" && e.Tick > retTick {
 				add(g("reqmod_after_close_returned"), "request modifier started for conn %s after Close() returned", e.Conn)
 			}
+		}
+		if sc.Hold {
+			return out // the exchanges outlived their connection deadlines: what the clients got is not judged
 		}
 		if timeAdvanced {
 			sig := g("needed_idle_timeout")
@@ -1034,6 +1051,12 @@ func scenarios(tier string) []scenario {
 			emit("shaped/rterr", scenario{Place: []int{st}, Order: []int{0}, Late: "racing", RTErr: true, Shaped: true})
 		}
 	}
+	// exchanges parked for longer than the proxy's timeout after Close() was called
+	for st := 2; st <= 4; st++ {
+		emit("hold", scenario{Place: []int{st}, Order: []int{0}, Hold: true})
+		emit("hold", scenario{Place: []int{st}, Order: []int{0}, Hold: true, Late: "after"})
+	}
+	emit("hold", scenario{Place: []int{2, 3}, Order: []int{1, 0}, Hold: true})
 	return out
 }
 
